@@ -34,7 +34,8 @@ def run(seed, sample=False):
     poly = PolygonalRegion([(0, 0), (4, 0), (4, 2), (2, 2), (2, 4), (0, 4)])
     F = poly.footprint
     # heights far apart: each later volume lies (partly) outside any extrusion cached for an earlier one
-    zs = [0.0, rng.uniform(25, 40), -rng.uniform(100, 130), rng.uniform(140, 170), -rng.uniform(160, 200), rng.uniform(40, 60)]
+    # (the 2nd volume lies only PARTLY inside the slab cached for the 1st, thin one; the later ones far outside)
+    zs = [0.0, rng.uniform(45, 58), -rng.uniform(100, 130), rng.uniform(140, 170), -rng.uniform(160, 200), rng.uniform(40, 60)]
     hs = [0.2, 40.0, 6.0, 8.0, 3.0, 30.0]
     for step, (zc, h) in enumerate(zip(zs, hs)):
         box = BoxRegion(position=Vector(2, 2, zc), dimensions=(6, 6, h))  # covers the whole L in x, y
@@ -78,9 +79,20 @@ def run(seed, sample=False):
             # every quarter of the box height must be reachable (expected 50 of 200 draws each)
             counts = [0, 0, 0, 0]
             n = 200
+            from scenic.core.distributions import RejectionException
+
+            def draw():
+                # the mesh sampler legitimately rejects now and then (a handful of candidates per call): retry
+                for _ in range(25):
+                    try:
+                        return R.uniformPointInner()
+                    except RejectionException:
+                        bump("footprint_reuse_sampler_rejections")
+                raise RuntimeError("25 consecutive rejections")
+
             try:
                 for _ in range(n):
-                    q = R.uniformPointInner()
+                    q = draw()
                     k = min(3, max(0, int((q.z - lo) / h * 4)))
                     counts[k] += 1
                     if not _in_L(q.x, q.y, -0.05) or not (lo - 1e-6 <= q.z <= hi + 1e-6):
